@@ -134,3 +134,19 @@ pub fn sedp_key_payload(guid: [u8; 16], le: bool) -> Vec<u8> {
 pub fn guid_bytes(g: GUID) -> [u8; 16] {
   g.to_bytes()
 }
+
+/// C10: the QoS a peer ends up with after it was announced over SEDP: written into DiscoveredWriterData /
+/// DiscoveredReaderData, serialised to PL_CDR, parsed back, `qos()` of the result.
+pub fn qos_through_sedp(qos: &QosPolicies, as_writer: bool, le: bool) -> Result<QosPolicies, String> {
+  use crate::serialization::pl_cdr_adapters::PlCdrDeserialize;
+  let mut guid = [0x3Cu8; 16];
+  guid[15] = if as_writer { 0x02 } else { 0x07 };
+  let addr: SocketAddr = "127.0.0.1:7411".parse().unwrap();
+  if as_writer {
+    let b = sedp_writer_payload(guid, "t", "T", qos, addr, le);
+    DiscoveredWriterData::from_pl_cdr_bytes(&b[4..], rep(le)).map(|d| d.publication_topic_data.qos()).map_err(|e| format!("{e:?}"))
+  } else {
+    let b = sedp_reader_payload(guid, "t", "T", qos, addr, le);
+    DiscoveredReaderData::from_pl_cdr_bytes(&b[4..], rep(le)).map(|d| d.subscription_topic_data.qos()).map_err(|e| format!("{e:?}"))
+  }
+}
